@@ -62,6 +62,10 @@ def slotted(  # noqa: C901
     """
 
     def _slots_setstate(self, state):
+        # The default state is the pair (__dict__ or None, {slot: value}), but only
+        # the bare __dict__ when no slot holds a value (e.g. a class without fields).
+        if not isinstance(state, (tuple, list)):
+            state = (state,)
         for param_dict in filter(None, state):
             for slot, value in param_dict.items():
                 object.__setattr__(self, slot, value)
